@@ -3,23 +3,35 @@
 Specs: TBinaryWire (reference codec, classification, stream -> frame function), TBinaryWireCheck (its bounded
 self-consistency and the classification case table), ThriftWireAbs (oracle, named clauses), ThriftWireTrace
 (batched validation), ReadAll (code-shaped model of the chunked
-header-then-body reads, model-checked; every chunking TLC enumerates is replayed on the real code).
+header-then-body reads, model-checked; every chunking TLC enumerates is replayed on the real code),
+ThriftWireWrite (code-shaped model of the length-then-payload write over sockets whose send() accepts only
+part of the buffer, model-checked; every split TLC enumerates is replayed on the real code).
 
 Code under test (always the real classes from /repo): scales.thrift.serializer.MessageSerializer via
 ThriftSerializerSink, scales.thrift.sink.SocketTransportSink, scales.varz.VarzSocketWrapper,
 scales.scales_socket.ScalesSocket, MessageDispatcher/_AsyncResponseSink and the generated proxy.
-Only `scales.scales_socket.gsocket` is replaced (FakeSocket: gevent-free, scripted chunking) and
-`ScalesSocket._resolveAddr` stubbed.
+Only `scales.scales_socket.gsocket` is replaced (FakeSocket: gevent-free, scripted chunking of reads, scripted
+/ bounded acceptance per send(): `send()` takes 1..len bytes and returns the count, `sendall()` is the socket
+library's loop over send(); the peer receives exactly the accepted bytes) and `ScalesSocket._resolveAddr` stubbed.
 
 (a) direction A: `ReadAll` is model-checked; TLC prints every complete chunking of every bounded
     stream (history variable); each is replayed on the real transport ("varz" variant: real
     SocketTransportSink over VarzSocketWrapper over ScalesSocket) and on ScalesSocket.readAll ("raw"),
     the sequence of (requested, delivered) sizes and the outcomes are compared with the model (drift)
-    and the recorded Read event is judged by ThriftWireAbs.
+    and the recorded Read event is judged by ThriftWireAbs.  Likewise `ThriftWireWrite`: every complete
+    sequence of per-send() accepted sizes of every bounded payload is replayed on the real transport (both
+    variants), the (offered, accepted) log and the bytes the peer received are compared with the model
+    (drift) and the recorded Write event is judged by ThriftWireAbs (C14.framePrefix).
 (b)(c) direction B: seeded calls over the Hello interface of the repo's tests and the hand-written
     gen_py_x interfaces through the real client stack; the peer is the Thrift library's generated
     Processor over the pure-Python TBinaryProtocol; reply streams are delivered with scripted
     chunkings (and truncated at arbitrary points); one Call and one Reply event per call.
+(d) direction B under partial sends: the same, over connections whose send() accepts at most 1 / 3 / 7 / 64 /
+    1000 bytes per call, arguments from empty to a few KiB (ASCII and non-ASCII), through the real client
+    stack (VarzSocketWrapper.write), the transport directly over ScalesSocket (the ScalesSocket.write loop)
+    and concurrently on one client (a cut-short send() blocks, the other callers' writes run meanwhile).
+    The Call event's `bytes` are what the peer received on the call's connection (the concatenation of the
+    accepted pieces, listed in `tx`) up to the end of the call (reply, error or timeout).
 """
 import random
 import struct
@@ -35,7 +47,13 @@ TRACE_CHUNK = 250        # set per tier in cases()
 ASSUMPTIONS = [
   'the peer is the Thrift library\'s generated Processor over the pure-Python TBinaryProtocol (thrift 0.24); '
   'gen_py_x interfaces are hand-written in the style of the compiler output (no thrift compiler offline)',
-  'FakeSocket stands in for a TCP socket: in-order byte stream, a read returns 1..requested bytes, 0 bytes = EOF',
+  'FakeSocket stands in for a TCP socket: in-order byte stream, a read returns 1..requested bytes, 0 bytes = EOF; '
+  'a send() accepts 1..offered bytes and returns the count, sendall() returns when everything was accepted; '
+  'connections stay open and writable (no send faults): a call\'s bytes are everything its connection '
+  'accepted until the call ended',
+  'partial sends are exhaustive (TLC) for payloads up to 4 (quick) / 8 (thorough) bytes: every split of the '
+  'frame across send() calls; real calls (up to ~4 KiB frames) are sampled with a fixed per-send() limit '
+  'in {1, 3, 7, 64, 1000}',
   'chunk-independence is exhaustive (TLC) for streams up to 8 (quick) / 12 (thorough) bytes and two '
   'transactions per connection; longer (real reply) streams are sampled: every single split point, '
   'byte-by-byte, header splits and seeded random chunkings',
@@ -44,15 +62,19 @@ ASSUMPTIONS = [
   'replies outside the property (non-void reply without result, two exceptions set, malformed payloads) are '
   'recorded but only chunk-independence is asserted for them',
 ]
-RULE = {'C14': 'direction A: every chunking of every bounded stream enumerated by TLC (distinct by stream+chunks); '
+RULE = {'C14': 'direction A: every chunking of every bounded stream and every split of every bounded frame across '
+               'partial sends enumerated by TLC (distinct by stream+chunks / payload+accepted sizes); '
                'direction B: batches of seeded calls (interface x method x argument values x positional/keyword '
-               'form x sync/async proxy form x server behaviour x chunking x truncation); a trace is non-trivial '
-               'if it contains a Reply whose stream was delivered in more than one read or a Read with more than '
-               'one socket read; distinct by canonical event list'}
+               'form x sync/async proxy form x server behaviour x chunking x truncation x per-send() limit x '
+               'argument size x transport variant); a trace is non-trivial '
+               'if it contains a Reply whose stream was delivered in more than one read, a Call whose frame was '
+               'accepted in more than one send(), a Read with more than one socket read or a Write with more '
+               'than one send(); distinct by canonical event list'}
 EXHAUSTIVE = {('C14', 'quick'): False, ('C14', 'thorough'): False}
 CASE_TIMEOUT = 300
 
 ENUM_CFG = {'quick': 'ReadAll_enum_q.cfg', 'thorough': 'ReadAll_enum_t.cfg'}
+WENUM_CFG = {'quick': 'ThriftWireWrite_enum_q.cfg', 'thorough': 'ThriftWireWrite_enum_t.cfg'}
 
 
 def models(prop, tier):
@@ -62,11 +84,16 @@ def models(prop, tier):
   if tier == 'quick':
     return [dict(module='ReadAll', cfg='ReadAll_q.cfg', coverage=True, workers=4,
                  what='header-then-body reads, streams <= 8 bytes, 2 transactions, both readAll variants, all chunkings'),
+            dict(module='ThriftWireWrite', cfg='ThriftWireWrite_q.cfg', coverage=True, workers=2,
+                 what='length-then-payload write, payloads <= 4 bytes, both write variants (sendall / the '
+                      'ScalesSocket.write loop), every split of the frame across partial send() calls'),
             codec]
   return [dict(module='ReadAll', cfg='ReadAll_q.cfg', coverage=True, workers=4,
                what='streams <= 8 bytes, 2 transactions, all chunkings'),
           dict(module='ReadAll', cfg='ReadAll_t.cfg', coverage=True, workers=8,
                what='streams <= 12 bytes, 2 transactions, all chunkings'),
+          dict(module='ThriftWireWrite', cfg='ThriftWireWrite_t.cfg', coverage=True, workers=4,
+               what='payloads <= 8 bytes, both write variants, every split across partial send() calls'),
           codec]
 
 
@@ -347,6 +374,56 @@ def _gen_call(rng, iface, m=None):
   return call
 
 
+# ---- calls for the write path under partial sends: one send() accepts at most `smax` bytes
+_SMAX = [1, 3, 7, 64, 1000]
+_BIGLEN = [0, 1, 2, 5, 30, 40, 50, 60, 64, 70, 130, 300, 700, 960, 980, 1000, 1024, 1500, 2048, 3000, 4096]
+_TXMETH = {'hello': ['hi'], 'base': ['echo', 'put', 'fire', 'count', 'echo', 'ping', 'add'],
+           'derived': ['echo', 'put', 'drop', 'count', 'twice', 'fire'],
+           'other': ['add', 'ping', 'echo', 'reset', 'hi']}
+
+
+def _big_str(rng, n):
+  """text of about n UTF-8 bytes: ASCII, mixed widths, or 3-byte code points only"""
+  r = rng.random()
+  if r < 0.45:
+    return {'t': 'str', 'v': [rng.choice(_CPS[:7]) for _ in range(n)]}
+  if r < 0.8:
+    out, left = [], n
+    while left > 0:
+      c = rng.choice(_CPS)
+      out.append(c)
+      left -= 1 if c < 0x80 else 2 if c < 0x800 else 3 if c < 0x10000 else 4
+    return {'t': 'str', 'v': out}
+  return {'t': 'str', 'v': [rng.choice([0x4e2d, 0x20ac, 0xfffd, 0x800]) for _ in range(max(n // 3, 1 if n else 0))]}
+
+
+def _grow(rng, v, n):
+  """the typed value v with its text parts grown to about n bytes in total"""
+  if v.get('t') == 'str':
+    return _big_str(rng, n)
+  if v.get('t') == 'list' and v.get('et') == 'str':
+    k = rng.choice([1, 2, 5, 9]) if n else rng.choice([0, 1, 3])
+    return {'t': 'list', 'et': 'str', 'v': [_big_str(rng, n // k) for _ in range(k)]}
+  if v.get('t') == 'struct':
+    return {'t': 'struct', 'n': v['n'], 'f': [{'id': f['id'], 'v': _grow(rng, f['v'], n // 2)} for f in v['f']]}
+  return v
+
+
+def _gen_tx_call(rng, iface, smax, size):
+  """a call whose text arguments are grown to about `size` bytes (None: as generated, tiny)"""
+  c = _gen_call(rng, iface, rng.choice(_TXMETH[iface]))
+  while c['srv']['do'] == 'unknown':
+    c = _gen_call(rng, iface, c['m'])
+  if size is not None:
+    nstr = sum(1 for v in c['pos'] + [x['v'] for x in c['kw']] if v.get('t') in ('str', 'list', 'struct')) or 1
+    c['pos'] = [_grow(rng, v, size // nstr) for v in c['pos']]
+    c['kw'] = [{'k': x['k'], 'v': _grow(rng, x['v'], size // nstr)} for x in c['kw']]
+  c['smax'] = smax
+  if rng.random() < 0.9:
+    c['cut'] = -1
+  return c
+
+
 def _wire_key(iface, call):
   """(method, set arguments by name): equal keys = equal request payloads"""
   names = [n for (n, _t) in METHODS[iface][call['m']]['args']]
@@ -411,7 +488,65 @@ def cases(prop, tier, seed):
       rng.shuffle(order)
       groups.append({'calls': calls, 'order': order})
     out.append({'kind': 'conc', 'iface': iface, 'groups': groups})
-  return out
+  # the write path under partial sends: every send() accepts at most smax bytes; payloads from tiny to a few
+  # KiB; through the real client stack ('min' / 'full': VarzSocketWrapper.write) and through the transport
+  # directly over ScalesSocket ('raw': the ScalesSocket.write loop); replies chunked as above
+  nplain = len(out)
+  ntx = 100 if tier == 'quick' else 600
+  for b in range(ntx):
+    iface = ['hello', 'base', 'derived', 'other'][b % 4]
+    smax = _SMAX[b % 5]
+    calls = []
+    for j in range(6):
+      if j == 0:
+        size = None
+      elif j == 1:
+        size = rng.choice([0, 1, 2, 5, 30, 60, 64])
+      elif j == 5:
+        size = rng.choice([1500, 2048, 3000, 4096])
+      else:
+        size = rng.choice(_BIGLEN)
+      c = _gen_tx_call(rng, iface, smax if rng.random() < 0.9 else rng.choice(_SMAX), size)
+      c['stack'] = ['min', 'raw', 'full', 'raw', 'min'][(b // 5 + j) % 5]
+      if c['stack'] == 'full':
+        c['proto'] = 'accel'
+      calls.append(c)
+    rng.shuffle(calls)
+    out.append({'kind': 'rpc', 'calls': calls, 'reuse': (b // 2) % 2, 'tx': 1})
+  # concurrent calls under partial sends: a send() that was cut short blocks until the socket has drained, the
+  # other callers' writes run meanwhile (each on its own pooled connection)
+  nctx = 40 if tier == 'quick' else 250
+  for b in range(nctx):
+    iface = ['hello', 'base', 'derived', 'other'][b % 4]
+    groups = []
+    for g in range(2):
+      k = rng.choice([2, 3, 3])
+      smax = _SMAX[(b + g) % 5]
+      calls = []
+      for _c in range(k):
+        size = rng.choice([None, 0, 40, 300] + _BIGLEN)
+        c = _gen_tx_call(rng, iface, smax, size)
+        while METHODS[iface][c['m']].get('oneway'):
+          c = _gen_tx_call(rng, iface, smax, size)
+        c['stack'] = 'full'
+        c['proto'] = 'accel'
+        for prev in calls:
+          if _wire_key(iface, prev) == _wire_key(iface, c):
+            c['srv'], c['cut'] = prev['srv'], prev['cut']
+        calls.append(c)
+      order = list(range(k))
+      rng.shuffle(order)
+      groups.append({'calls': calls, 'order': order, 'smax': smax})
+    out.append({'kind': 'conc', 'iface': iface, 'groups': groups, 'tx': 1})
+  # spread the (larger) partial-send traces evenly over the validation batches
+  plain, txs = out[:nplain], out[nplain:]
+  stride = max(1, len(plain) // max(1, len(txs)))
+  out = []
+  for i, c in enumerate(plain):
+    out.append(c)
+    if i % stride == stride - 1 and txs:
+      out.append(txs.pop(0))
+  return out + txs
 
 
 # =================================================================== fake socket
@@ -423,6 +558,8 @@ class FakeNet(object):
     self.on_connect = None
     self.on_frame = None
     self.hold = False
+    self.send_max = None        # one send() call accepts at most this many bytes (None = everything)
+    self.accept_script = None   # per-send() accepted sizes for the next socket (direction A replays)
 
 
 class FakeSocket(object):
@@ -443,6 +580,15 @@ class FakeSocket(object):
     self.peer_closed = False
     self.evt = None
     self.last_raw = b''         # the bytes of the last complete frame the client wrote, with its prefix
+    # partial sends: one send() call accepts 1..len(data) bytes and returns the count (socket buffer space);
+    # sendall() is the socket library's own loop over send() and returns when everything was accepted.
+    # The peer receives exactly the accepted bytes, in order (`sent` is the peer's receive buffer).
+    self.accepts = None         # scripted accepted sizes per send() (exhausted -> net.send_max applies)
+    self.aidx = 0
+    self.txlog = []             # (offered, accepted) per send()
+    self.full = False           # the last send() was partial: the socket buffer is full
+    if getattr(FakeSocket.net, 'accept_script', None) is not None:
+      self.accepts = list(FakeSocket.net.accept_script)
     FakeSocket.net.sockets.append(self)
 
   def connect(self, addr):
@@ -479,12 +625,38 @@ class FakeSocket(object):
       if FakeSocket.net.on_frame:
         FakeSocket.net.on_frame(self, payload)
 
+  def _accept(self, data):
+    """one send(): the socket takes 1..len(data) bytes (scripted, else at most net.send_max)"""
+    data = bytes(data)
+    if self.closed:
+      raise OSError(9, 'Bad file descriptor (fake: socket closed)')
+    if self.full and self.hold:
+      # the socket buffer was full: a real send() waits for it to drain, other greenlets run meanwhile
+      import gevent
+      gevent.sleep(0)
+      if self.closed:
+        raise OSError(9, 'Bad file descriptor (fake: closed during wait)')
+    k = len(data)
+    if self.accepts is not None and self.aidx < len(self.accepts):
+      if self.accepts[self.aidx] > 0:
+        k = min(k, self.accepts[self.aidx])
+      self.aidx += 1
+    elif FakeSocket.net.send_max is not None:
+      k = min(k, FakeSocket.net.send_max)
+    self.full = k < len(data)
+    self.txlog.append((len(data), k))
+    if k:
+      self._written(data[:k])
+    return k
+
   def sendall(self, data):
-    self._written(data)
+    data = bytes(data)
+    while data:
+      k = self._accept(data)
+      data = data[k:]
 
   def send(self, data):
-    self._written(data)
-    return len(data)
+    return self._accept(data)
 
   def _next(self, n):
     avail = len(self.rx) - self.rpos
@@ -651,7 +823,26 @@ def _build_client(iface_mod, stack, proto='accel'):
     ser = ThriftSerializerSink.Builder(protocol_factory=TBinaryProtocolFactory())
   else:
     ser = ThriftSerializerSink.Builder()     # default: TBinaryProtocolAcceleratedFactory
-  tr = SocketTransportSink.Builder()
+  if stack == 'raw':
+    # the transport directly over ScalesSocket (as the repo's own tests compose it): ScalesSocket.write /
+    # ScalesSocket.readAll instead of the VarzSocketWrapper methods
+    from scales.scales_socket import ScalesSocket
+    from scales.constants import SinkRole
+    from scales.sink import SinkProviderBase
+
+    class _RawTransportProvider(SinkProviderBase):
+      Role = SinkRole.Transport
+
+      def CreateSink(self, properties):
+        server = properties[SinkProperties.Endpoint]
+        return SocketTransportSink(ScalesSocket(server.host, server.port), properties[SinkProperties.Label])
+
+      @property
+      def sink_class(self):
+        return SocketTransportSink
+    tr = _RawTransportProvider()
+  else:
+    tr = SocketTransportSink.Builder()
   ser.next_provider = tr
   ts = TimeoutSinkProvider()
   ts.next_provider = ser
@@ -716,7 +907,8 @@ def _one_call(loop, net, call, chunks, cut, cache=None):
     if cache is None:
       del net.sockets[:]
     proxy = _build_client(iface_mod, call['stack'], call.get('proto', 'accel'))
-  marks = [(sk, len(sk.sent)) for sk in net.sockets]
+  net.send_max = call.get('smax')
+  marks = [(sk, len(sk.sent), len(sk.txlog)) for sk in net.sockets]
   loop.settle()
   args = [from_tv(v) for v in call['pos']]
   kwargs = dict((x['k'], from_tv(x['v'])) for x in call['kw'])
@@ -754,8 +946,11 @@ def _one_call(loop, net, call, chunks, cut, cache=None):
   rspec = None
   if result_cls is not None and result_cls.thrift_spec and result_cls.thrift_spec[0]:
     rspec = result_cls.thrift_spec[0]
-  known = dict((id(sk), n) for sk, n in marks)
+  # the bytes the peer received for this call: what the connection(s) accepted since the call was issued
+  known = dict((id(sk), n) for sk, n, _k in marks)
+  knownk = dict((id(sk), k) for sk, _n, k in marks)
   sent = b''.join(bytes(sk.sent[known.get(id(sk), 0):]) for sk in net.sockets)
+  tx = [k for sk in net.sockets for (_o, k) in sk.txlog[knownk.get(id(sk), 0):]]
   sock = st['sock']
   healthy = cut < 0 and out[0] in ('value',) and not oneway
   if cache is not None and healthy:
@@ -768,7 +963,8 @@ def _one_call(loop, net, call, chunks, cut, cache=None):
     except Exception:
       pass
   loop.settle()
-  return {'sent': sent, 'srv': rec, 'stream': st['stream'], 'out': _outcome(out[0], out[1], rspec),
+  net.send_max = None
+  return {'sent': sent, 'tx': tx, 'srv': rec, 'stream': st['stream'], 'out': _outcome(out[0], out[1], rspec),
           'reads': list(sock.log) if sock is not None else []}
 
 
@@ -792,14 +988,14 @@ def _run_rpc(script):
     srv = dict(ref['srv'])
     srv.pop('err', None)
     ev.append({'e': 'Call', 'm': mkey(call['iface'], call['m']), 'pos': call['pos'], 'kw': call['kw'],
-               'bytes': list(ref['sent']), 'srv': srv})
+               'bytes': list(ref['sent']), 'tx': ref['tx'], 'srv': srv})
     oneway = bool(METHODS[call['iface']][call['m']].get('oneway'))
     if not oneway and ref['stream'] is not None and run['stream'] is not None:
       ev.append({'e': 'Reply', 'm': mkey(call['iface'], call['m']), 'stream': list(run['stream']),
                  'same_stream': 1 if run['stream'] == ref['stream'] and run['sent'] == ref['sent'] else 0,
                  'chunks': [k for (_r, k) in run['reads']], 'out': run['out'], 'ref': ref['out']})
     meta.append({'iface': call['iface'], 'srv': call['srv']['do'], 'form': call['form'], 'stack': call['stack'],
-                 'proto': call.get('proto', 'accel')})
+                 'proto': call.get('proto', 'accel'), 'smax': call.get('smax')})
   return {'cfg': {'kind': 'rpc'}, 'ev': ev, 'meta': meta, 'errors': [list(e[1:3]) for e in loop.errors][:3]}
 
 
@@ -843,8 +1039,9 @@ def _conc_round(loop, net, iface, group, chunked):
   arrivals = []          # (sock, payload, raw) in arrival order
   net.on_frame = lambda sock, payload: arrivals.append((sock, payload, sock.last_raw))
   net.hold = True
+  net.send_max = group.get('smax')
   del net.sockets[:]
-  per = [{'sent': b'', 'srv': {'ok': 0, 'm': [], 'mtype': 0, 'seq': 0, 'args': []}, 'stream': None, 'reads': [],
+  per = [{'sent': b'', 'tx': None, 'srv': {'ok': 0, 'm': [], 'mtype': 0, 'seq': 0, 'args': []}, 'stream': None, 'reads': [],
           'sock': None} for _ in calls]
   try:
     proxy = _build_client(iface_mod, 'full')
@@ -869,6 +1066,7 @@ def _conc_round(loop, net, iface, group, chunked):
     onwire = len(arrivals)
     matched = {}             # arrival index -> call index
     served = set()
+    nframes = {}             # socket -> complete frames received on it
 
     def serve(ai):
       sock, payload, raw = arrivals[ai]
@@ -890,6 +1088,7 @@ def _conc_round(loop, net, iface, group, chunked):
       per[i]['sent'] = raw
       per[i]['srv'] = rec
       per[i]['sock'] = sock
+      nframes[id(sock)] = nframes.get(id(sock), 0) + 1
       if rep is None:
         per[i]['stream'] = b''
         sock.peer_send(b'', close=True)
@@ -921,6 +1120,21 @@ def _conc_round(loop, net, iface, group, chunked):
     if any((i in ars and not ars[i].ready()) or (i not in ars and i not in res) for i in range(n)):
       loop.run_for(11.0)
       loop.settle()
+    # What the peer received on each connection, attributed to calls: a connection that carried exactly one
+    # complete frame belongs to the call matched with that frame, and everything the peer received on it counts
+    # (the frame and whatever came after it).  Bytes on connections without a complete frame (a frame that was
+    # announced but never completed: the Processor never saw a call) go to the calls no frame was matched
+    # with, in order of connection creation.
+    orphan = [sk for sk in net.sockets if nframes.get(id(sk), 0) == 0 and len(sk.sent)]
+    for i in range(n):
+      sk = per[i]['sock']
+      if sk is not None and nframes.get(id(sk), 0) == 1:
+        per[i]['sent'] = bytes(sk.sent)
+        per[i]['tx'] = [k for (_o, k) in sk.txlog]
+      elif sk is None and orphan:
+        osk = orphan.pop(0)
+        per[i]['sent'] = bytes(osk.sent)
+        per[i]['tx'] = [k for (_o, k) in osk.txlog]
     for i, call in enumerate(calls):
       if i in ars:
         ar = ars[i]
@@ -945,6 +1159,7 @@ def _conc_round(loop, net, iface, group, chunked):
     loop.settle()
   finally:
     net.hold = False
+    net.send_max = None
   return per
 
 
@@ -962,15 +1177,18 @@ def _run_conc(script):
     run = _conc_round(loop, net, iface, group, True)
     for i, call in enumerate(group['calls']):
       key = mkey(iface, call['m'])
-      ev.append({'e': 'Call', 'm': key, 'pos': call['pos'], 'kw': call['kw'],
-                 'bytes': list(ref[i]['sent']), 'srv': ref[i]['srv'], 'inflight': ref[i].get('onwire', 0)})
+      ce = {'e': 'Call', 'm': key, 'pos': call['pos'], 'kw': call['kw'],
+            'bytes': list(ref[i]['sent']), 'srv': ref[i]['srv'], 'inflight': ref[i].get('onwire', 0)}
+      if ref[i]['tx'] is not None:
+        ce['tx'] = ref[i]['tx']
+      ev.append(ce)
       if ref[i]['stream'] is not None and run[i]['stream'] is not None:
         ev.append({'e': 'Reply', 'm': key, 'stream': list(run[i]['stream']),
                    'same_stream': 1 if run[i]['stream'] == ref[i]['stream'] else 0,
                    'chunks': [k for (_r, k) in run[i]['reads']], 'out': run[i]['out'], 'ref': ref[i]['out'],
                    'inflight': run[i].get('onwire', 0)})
       meta.append({'iface': iface, 'srv': call['srv']['do'], 'form': call['form'], 'stack': 'full-concurrent',
-                   'proto': 'accel'})
+                   'proto': 'accel', 'smax': group.get('smax')})
   return {'cfg': {'kind': 'conc'}, 'ev': ev, 'meta': meta, 'errors': [list(e[1:3]) for e in loop.errors][:3]}
 
 
@@ -1044,7 +1262,62 @@ def _read_raw(stream, chunks, ntxn):
   return rets, list(sock.log)
 
 
+def _write_transport(loop, variant, payload, accepts):
+  """Real SocketTransportSink over VarzSocketWrapper over ScalesSocket ("varz") or directly over ScalesSocket
+  ("raw"); one transaction with `payload`; the socket accepts the scripted sizes per send().  Returns what the
+  peer received and the (offered, accepted) log."""
+  from scales.message import MethodCallMessage
+  from scales.scales_socket import ScalesSocket
+  from scales.sink import ClientMessageSinkStack, ClientMessageSink
+  from scales.thrift.sink import SocketTransportSink
+  from scales.varz import VarzSocketWrapper
+  from scales.compat import BytesIO
+
+  class Top(ClientMessageSink):
+    def AsyncProcessRequest(self, sink_stack, msg, stream, headers):
+      pass
+
+    def AsyncProcessResponse(self, sink_stack, context, stream, msg):
+      pass
+
+  net = FakeSocket.net
+  net.accept_script = list(accepts)
+  try:
+    sock_obj = ScalesSocket('10.0.0.1', 9090)
+    if variant == 'varz':
+      sock_obj = VarzSocketWrapper(sock_obj, 'svc')
+    sink = SocketTransportSink(sock_obj, 'svc')
+    sink.Open()
+    loop.settle()
+  finally:
+    net.accept_script = None
+  sock = net.sockets[-1]
+  stack = ClientMessageSinkStack()
+  stack.Push(Top())
+  sink.AsyncProcessRequest(stack, MethodCallMessage(None, 'm', (), {}), BytesIO(bytes(payload)), {})
+  loop.settle()       # the peer never answers and then closes: whatever was going to be sent has been sent
+  try:
+    sink.Close()
+  except Exception:
+    pass
+  return bytes(sock.sent), [list(x) for x in sock.txlog]
+
+
+def _write_one(loop, c):
+  rx, log = _write_transport(loop, c['variant'], bytes(c['payload']), c['accepts'])
+  ev = [{'e': 'Write', 'variant': c['variant'], 'payload': list(c['payload']), 'accepts': log, 'rx': list(rx)}]
+  drift = None
+  if 'spec_accepts' in c:
+    spec = [list(x) for x in c['spec_accepts']]
+    if log != spec or list(rx) != list(c['spec_rx']):
+      drift = {'variant': c['variant'], 'payload': list(c['payload']), 'spec_accepts': spec, 'real_accepts': log,
+               'spec_rx': list(c['spec_rx']), 'real_rx': list(rx)}
+  return ev, len(log), drift
+
+
 def _chunk_one(loop, c):
+  if c['kind'] == 'write':
+    return _write_one(loop, c)
   stream = bytes(c['stream'])
   if c['variant'] == 'varz':
     rets, log = _read_transport(loop, stream, c['chunks'], c['ntxn'])
@@ -1081,24 +1354,24 @@ def run_case(script):
     return _run_rpc(script)
   if script['kind'] == 'conc':
     return _run_conc(script)
-  if script['kind'] == 'chunk':
+  if script['kind'] in ('chunk', 'write'):
     loop = common.boot()
     _install_net()
     import scales.thrift.sink  # noqa
     _limit_memory()
     ev, _steps, _drift = _chunk_one(loop, script)
-    return {'cfg': {'kind': 'chunk'}, 'ev': ev}
+    return {'cfg': {'kind': script['kind']}, 'ev': ev}
   raise ValueError(script['kind'])
 
 
-def _parse_emitted(stdout):
+def _parse_emitted(stdout, tag='B'):
   """PrintT'd `<<"B", variant, stream, chunks, outs>>` tuples (TLC wraps long values over lines)."""
   vals = []
   cur = None
   depth = 0
   for line in stdout.split('\n'):
     if cur is None:
-      if line.startswith('<<"B"') or line.startswith('<< "B"'):
+      if line.startswith('<<"%s"' % tag) or line.startswith('<< "%s"' % tag):
         cur = []
         depth = 0
       else:
@@ -1131,6 +1404,25 @@ def replay_behaviours(prop, tier, seed):
                   # code that asks for more than the model does is given more, as a real socket would
                   'chunks': [(c[1] if c[1] < c[0] else 0) for c in chunks if c[1] > 0],
                   'spec_reads': chunks, 'spec_outs': outs})
+  nread = len(items)
+  # the write side: every complete acceptance sequence of every bounded payload (ThriftWireWrite)
+  rw = tlc.run_tlc('ThriftWireWrite', WENUM_CFG[tier], workers=1, timeout=3000, heap='4g')
+  if not rw.ok:
+    raise RuntimeError('ThriftWireWrite enumeration failed: %r %r\n%s' % (rw.violated, rw.error, rw.stdout[-2000:]))
+  wbehs = _parse_emitted(rw.stdout, 'W')
+  if not wbehs:
+    raise RuntimeError('no write behaviours emitted by TLC:\n' + rw.stdout[-2000:])
+  for b in wbehs:
+    _tag, variant, payload, accepts, rx = b
+    key = common.canon(['W', variant, payload, accepts])
+    if key in seen:
+      continue
+    seen.add(key)
+    items.append({'kind': 'write', 'variant': variant, 'payload': payload,
+                  # a send() that took all it was offered is replayed as "accept everything offered" (0), so
+                  # code that offers more than the model does is not cut short by the script
+                  'accepts': [(a[1] if a[1] < a[0] else 0) for a in accepts],
+                  'spec_accepts': accepts, 'spec_rx': rx})
   per = 150
   batches = [{'kind': 'chunks', 'items': items[i:i + per]} for i in range(0, len(items), per)]
   res = common.run_forked(_run_chunks, batches, timeout_s=600)
@@ -1143,11 +1435,17 @@ def replay_behaviours(prop, tier, seed):
     steps += o['steps']
     if o['drift']:
       drift.append(o['drift'])
+    if it['kind'] == 'write':
+      script = {'kind': 'write', 'variant': it['variant'], 'payload': it['payload'], 'accepts': it['accepts']}
+      traces.append({'cfg': {'kind': 'write'}, 'ev': o['ev'], 'script': script, 'nsends': len(it['spec_accepts'])})
+      continue
     script = {'kind': 'chunk', 'variant': it['variant'], 'stream': it['stream'], 'ntxn': it['ntxn'],
               'chunks': it['chunks']}
     traces.append({'cfg': {'kind': 'chunk'}, 'ev': o['ev'], 'script': script, 'nreads': len(it['spec_reads'])})
-  return {'summary': {'behaviours_replayed': len(items), 'steps_compared': steps, 'drift': len(drift),
-                      'tlc_enum_distinct_states': r.distinct, 'tlc_enum_wall_s': round(r.wall_s, 1)},
+  return {'summary': {'behaviours_replayed': len(items), 'read_chunkings_replayed': nread,
+                      'write_splits_replayed': len(items) - nread, 'steps_compared': steps, 'drift': len(drift),
+                      'tlc_enum_distinct_states': r.distinct + rw.distinct,
+                      'tlc_enum_wall_s': round(r.wall_s + rw.wall_s, 1)},
           'traces': traces, 'drift': drift}
 
 
@@ -1159,10 +1457,16 @@ def nontrivial(prop, t):
   for e in t['ev']:
     if e['e'] == 'Reply' and len(e.get('chunks', [])) > 2:
       return common.canon(t['ev'])
+    if e['e'] == 'Call' and len(e.get('tx') or []) > 1:
+      return common.canon(t['ev'])
     if e['e'] == 'Read':
       s = t.get('script') or {}
       if t.get('nreads', len(s.get('chunks', []))) > 1:
         return common.canon([e['variant'], e['stream'], s.get('chunks')])
+    if e['e'] == 'Write':
+      s = t.get('script') or {}
+      if t.get('nsends', len(s.get('accepts', []))) > 1:
+        return common.canon(['W', e['variant'], e['payload'], s.get('accepts')])
   return None
 
 
@@ -1181,9 +1485,13 @@ def extra_coverage(prop, tier, traces):
   calls = sum(1 for t in traces for e in t['ev'] if e['e'] == 'Call')
   replies = sum(1 for t in traces for e in t['ev'] if e['e'] == 'Reply')
   reads = sum(1 for t in traces for e in t['ev'] if e['e'] == 'Read')
+  writes = sum(1 for t in traces for e in t['ev'] if e['e'] == 'Write')
+  partial = sum(1 for t in traces for e in t['ev'] if e['e'] == 'Call' and len(e.get('tx') or []) > 1)
+  big = sum(1 for t in traces for e in t['ev'] if e['e'] == 'Call' and len(e['bytes']) > 1000)
   kinds = {}
   for t in traces:
     for m in t.get('meta', []) or []:
-      k = '%s/%s/%s/%s/%s' % (m['iface'], m['srv'], m['form'], m['stack'], m.get('proto'))
+      k = '%s/%s/%s/%s/%s/%s' % (m['iface'], m['srv'], m['form'], m['stack'], m.get('proto'), m.get('smax'))
       kinds[k] = kinds.get(k, 0) + 1
-  return {'calls': calls, 'replies': replies, 'chunkings_replayed': reads, 'call_classes': len(kinds)}
+  return {'calls': calls, 'replies': replies, 'chunkings_replayed': reads, 'write_splits_replayed': writes,
+          'calls_sent_in_several_partial_sends': partial, 'calls_over_1000_bytes': big, 'call_classes': len(kinds)}
